@@ -75,7 +75,7 @@ func newTokEnv(fl *drv.Flags) *tokEnv {
 		mintDen:  fl.CfgInt("mintden", 2),
 		perBlock: int(fl.CfgInt("perblock", 2)),
 		record:   os.Getenv("VERIF_RECORD_DIR") != "",
-		nsSwap:   fl.CfgInt("nsswap", 0) == 1,
+		nsSwap:   fl.CfgInt("nsswap", 1) == 1,
 	}
 	for i := int64(1); i <= fl.CfgInt("users", 3); i++ {
 		e.users = append(e.users, fmt.Sprintf("u%d", i))
@@ -93,7 +93,7 @@ func newTokEnv(fl *drv.Flags) *tokEnv {
 		"taxnum": fmt.Sprint(taxNum), "taxden": fmt.Sprint(e.taxDen), "mintnum": fmt.Sprint(mintNum),
 		"mintden": fmt.Sprint(e.mintDen), "regin": fl.CfgStr("regin", ""), "regout": fl.CfgStr("regout", ""),
 		"regrn": fmt.Sprint(fl.CfgInt("regrn", 1)), "regrd": fmt.Sprint(fl.CfgInt("regrd", 1)),
-		"nsswap": fmt.Sprint(fl.CfgInt("nsswap", 0))}
+		"nsswap": fmt.Sprint(fl.CfgInt("nsswap", 1))}
 	accts := map[string]string{}
 	for _, u := range e.users {
 		accts[u] = fmt.Sprintf("%d%s", initStake, stake)
